@@ -706,12 +706,13 @@ def cylindrical_surface(
         )
 
     transformed_array, array_mask = extract_transformed_data(
-        data, transformed=transformed, klass=CylindricalHistogram, dropna=dropna
+        data, transformed=transformed, klass=CylindricalSurfaceHistogram, dropna=dropna
     )
 
     if transformed_array is not None:
         if not transformed and radius is None:
-            radius = np.hypot(data[:, 0], data[:, 1])
+            source = np.asarray(data, dtype=float)
+            radius = float(np.hypot(source[..., 0], source[..., 1]).mean())
     if radius is None:
         radius = 1
 
@@ -726,7 +727,7 @@ def cylindrical_surface(
         **kwargs,
     )
     frequencies, errors2, missed = histogram_nd.calculate_nd_frequencies(
-        data,
+        transformed_array,
         binnings=bin_schemas,
         weights=extract_weights(weights, array_mask=array_mask),
     )
